@@ -34,6 +34,8 @@ SPEC: Dict[str, Tuple[str, List[Tuple[str, Any]], str]] = {
     "OpCtxBad": ("int", [], "op"),
     "OpToOther": ("int", [], "op"),
     "OpSub": ("int", [], "op"),
+    "OpSubDecl": ("int", [], "op"),
+    "OpNeedSub": ("subint", [], "op"),
     "OpBoom": ("int", [("fire", 1)], "op"),
     "OpMkColl": ("int", [], "op"),
     "OpSum": ("coll", [], "op"),
@@ -93,9 +95,12 @@ def _apply(comp: str, x, p: Dict[str, Any], ctx: Dict[str, Any], log: List):
     if comp == "OpToOther":
         log.append((comp, {}))
         return ("other", x)
-    if comp == "OpSub":
+    if comp == "OpSub" or comp == "OpSubDecl":
         log.append((comp, {}))
         return ("subint", x)
+    if comp == "OpNeedSub":
+        log.append((comp, {}))
+        return ("int", x + 1)
     if comp == "OpBoom":
         log.append((comp, {"fire": p["fire"]}))
         if p["fire"]:
